@@ -67,6 +67,7 @@ type ApplySpec struct {
 	Lemma string
 	Args  []*Clause
 	Line  int
+	When  *Clause // optional guard: "apply before "text" when {cond}: lemma(..)" proves the hypotheses and assumes the conclusion only under cond
 }
 
 // Ghost state: specification-only integer variables. "ghost g int = e" declares g with its value at
@@ -549,11 +550,23 @@ func parseContractFile(path string) (*ContractFile, error) {
 			cur.Cuts = append(cur.Cuts, &CutSpec{Text: m[1], Ord: ord, Havoc: hv, Clause: c, SplitVar: spVar, SplitLo: spLo, SplitHi: spHi})
 		case "apply":
 			// apply before "text"#n: lemma(a, b, ...)   |   apply loop N: lemma(a, b, ...)
+			var whenText string
+			if wm := regexp.MustCompile(`^((before\s+"[^"]*"(#\d+)?|loop\s+\d+))\s+when\s+\{([^}]*)\}\s*:`).FindStringSubmatch(rest); wm != nil {
+				whenText = wm[4]
+				rest = wm[1] + ":" + rest[len(wm[0]):]
+			}
 			m := regexp.MustCompile(`^(before\s+"([^"]*)"(#(\d+))?|loop\s+(\d+))\s*:\s*([A-Za-z_][A-Za-z0-9_]*)\((.*)\)\s*$`).FindStringSubmatch(rest)
 			if m == nil {
 				return nil, fail("bad apply clause")
 			}
 			ap := &ApplySpec{Text: m[2], Ord: 1, Lemma: m[6], Line: it.line}
+			if whenText != "" {
+				wc, err := mkClause(strings.TrimSpace(whenText), it.line)
+				if err != nil {
+					return nil, err
+				}
+				ap.When = wc
+			}
 			if m[4] != "" {
 				ap.Ord, _ = strconv.Atoi(m[4])
 			}
